@@ -157,7 +157,15 @@ fn check_case(spec: &str, obs: &mut Obs) {
                 }
                 use ast::LiteralKind as K;
                 let d = match l.kind() {
-                    K::IntNumber(i) => format!("int:{:?}", i.value()),
+                    K::IntNumber(i) => {
+                        // the two value accessors of the token must agree
+                        let (v, w) = (i.value(), i.value_u128());
+                        if v == w {
+                            format!("int:{v:?}")
+                        } else {
+                            format!("int:value()={v:?} but value_u128()={w:?}")
+                        }
+                    }
                     K::FloatNumber(f) => format!("float:{:?}", f.value()),
                     K::BitString(b) => {
                         // both accessors of the token must agree
